@@ -319,5 +319,7 @@ pub fn run(opts: &Opts) -> i32 {
     rep.require("trimmed", 100);
     rep.require("declined_acks_checked", 100);
     rep.require("err_OverMaxPacketSize", 100);
+    // ---- B. builder-reported sizes at connection level
+    super::c09_conn::run_part(opts, &rep);
     rep.finish()
 }
